@@ -44,12 +44,15 @@ Ltac brute E :=
 
 Lemma send_emits : forall st s it st', send st s it = Some st' -> emits st' = emits st /\ emitters st' = emitters st.
 Proof. intros st s it st' E. unfold send in E. brute E; inversion E; subst; split; reflexivity. Qed.
-Lemma take_blk_emits : forall st t st', take_blk st t = Some st' -> emits st' = emits st /\ emitters st' = emitters st.
-Proof. intros st t st' E. unfold take_blk in E. brute E; inversion E; subst; split; reflexivity. Qed.
 Lemma try_drop_emits : forall st t st', try_drop st t = Some st' -> emits st' = emits st /\ emitters st' = emitters st.
 Proof. intros st t st' E. unfold try_drop in E. brute E; inversion E; subst; split; reflexivity. Qed.
 Lemma lookup_emits : forall st ty, emits (fst (lookup st ty)) = emits st /\ emitters (fst (lookup st ty)) = emitters st.
 Proof. intros st ty. unfold lookup. destruct (nth_error (bmap st) ty) as [[n|]|]; split; reflexivity. Qed.
+Lemma with_node_emits : forall st ty st1 n, with_node st ty = Some (st1, n) -> emits st1 = emits st /\ emitters st1 = emitters st.
+Proof.
+  intros st ty st1 n E. unfold with_node in E. pose proof (lookup_emits st ty) as [A B].
+  destruct (lookup st ty) as [sl m]. cbn in A, B. destruct (nth_error (nodes sl) m); inversion E; subst. split; assumption.
+Qed.
 
 Definition has_emitter (st : state) : Prop :=
   forall k e, nth_error (emits st) k = Some e -> epc e <> E0 -> eem e < length (emitters st).
@@ -69,9 +72,9 @@ Proof.
   intros st j l st' E. unfold step_emnew in E. destruct (nth_error (emitters st) j) as [m|]; [|discriminate].
   destruct (mnew m) as [|[|[|[|?]]]]; try discriminate.
   - inversion E; subst. fin_em.
-  - otau_inv E. destruct (take_blk_emits _ _ _ E) as [A B]. fin_em.
-  - pose proof (lookup_emits st (mty m)) as [A B]. destruct (lookup st (mty m)) as [st1 n]. cbn in A, B.
-    brute E; inversion E; subst; fin_em.
+  - destruct (with_node st (mty m)) as [[st1 n]|] eqn:Ew; [|discriminate]. destruct (with_node_emits _ _ _ _ Ew) as [A B].
+    inversion E; subst. fin_em.
+  - brute E; inversion E; subst; fin_em.
   - inversion E; subst. fin_em.
 Qed.
 
@@ -82,7 +85,7 @@ Proof.
   - brute E; inversion E; subst; fin_em.
   - brute E; inversion E; subst; fin_em.
   - brute E; inversion E; subst; fin_em.
-  - otau_inv E. destruct (take_blk_emits _ _ _ E) as [A B]. fin_em.
+  - inversion E; subst. fin_em.
   - otau_inv E. destruct (try_drop_emits _ _ _ E) as [A B]. fin_em.
   - inversion E; subst. fin_em.
 Qed.
@@ -92,10 +95,10 @@ Proof.
   intros st s l st' E. unfold step_sub in E. destruct (nth_error (subs st) s) as [c|]; [|discriminate].
   destruct (spc c); try discriminate.
   - destruct (styps c); inversion E; subst; fin_em.
-  - otau_inv E. destruct (take_blk_emits _ _ _ E) as [A B]. fin_em.
   - destruct (styps c) as [tys|]; [|discriminate]. destruct (nth_error tys i) as [ty|]; [|discriminate].
-    pose proof (lookup_emits st ty) as [A B]. destruct (lookup st ty) as [st1 n]. cbn in A, B.
-    brute E; inversion E; subst; fin_em.
+    destruct (with_node st ty) as [[st1 n]|] eqn:Ew; [|discriminate]. destruct (with_node_emits _ _ _ _ Ew) as [A B].
+    inversion E; subst. fin_em.
+  - brute E; inversion E; subst; fin_em.
   - inversion E; subst. fin_em.
   - brute E; inversion E; subst; fin_em.
   - brute E; inversion E; subst; fin_em.
@@ -120,7 +123,7 @@ Proof.
   destruct (cpc c); try discriminate.
   - brute E; inversion E; subst; fin_em.
   - brute E; inversion E; subst; fin_em.
-  - otau_inv E. destruct (take_blk_emits _ _ _ E) as [A B]. fin_em.
+  - inversion E; subst. fin_em.
   - destruct (nth_error (snodes c) i) as [n|]; [|discriminate]. destruct (nth_error (nodes st) n) as [nd|]; [|discriminate].
     otau_inv E. destruct (try_drop_emits _ _ _ E) as [A B]. fin_em.
   - inversion E; subst. fin_em.
@@ -257,8 +260,12 @@ Proof.
      specialize (N n0 nd0 t Hn Ht); destruct t; cbn in *; try contradiction; exact N).
 Qed.
 
-Lemma NL_take_blk : forall st t st', NoLeak st -> take_blk st t = Some st' -> NoLeak st'.
-Proof. intros st t st' N E. unfold take_blk in E. destruct (blk st); inversion E; subst. eapply NL_same; [exact N| | |]; reflexivity. Qed.
+Lemma NL_with_node : forall st ty st1 n, NoLeak st -> with_node st ty = Some (st1, n) -> NoLeak st1.
+Proof.
+  intros st ty st1 n N E. unfold with_node in E. pose proof (NL_lookup st ty N) as N1.
+  destruct (lookup st ty) as [sl m]. cbn in N1. destruct (nth_error (nodes sl) m) as [nd|] eqn:En; inversion E; subst.
+  eapply NL_node; [exact N1|exact En|reflexivity].
+Qed.
 Lemma NL_try_drop : forall st t st', NoLeak st -> try_drop st t = Some st' -> NoLeak st'.
 Proof. intros st t st' N E. unfold try_drop in E. brute E; inversion E; subst; (eapply NL_same; [exact N| | |]; reflexivity). Qed.
 
@@ -318,11 +325,11 @@ Proof.
   intros st j l st' N E. unfold step_emnew in E. destruct (nth_error (emitters st) j) as [m|]; [|discriminate].
   destruct (mnew m) as [|[|[|[|?]]]]; try discriminate.
   - inversion E; subst. nl_same N.
-  - otau_inv E. eapply (NL_same x); [eapply NL_take_blk; eassumption| | |]; reflexivity.
-  - pose proof (NL_lookup st (mty m) N) as N1. destruct (lookup st (mty m)) as [st1 n]. cbn in N1.
-    destruct (nth_error (nodes st1) n) as [nd|] eqn:En; [|discriminate]. destruct (holder nd); [discriminate|].
-    inversion E; subst. eapply (NL_same (set_node (set_blk st1 None) n _)); [|reflexivity|reflexivity|reflexivity].
-    eapply NL_node; [eapply NL_same; [exact N1| | |]; reflexivity|exact En|reflexivity].
+  - destruct (with_node st (mty m)) as [[st1 n]|] eqn:Ew; [|discriminate]. inversion E; subst.
+    eapply (NL_same st1); [eapply NL_with_node; eassumption| | |]; reflexivity.
+  - destruct (nth_error (nodes st) (mnode m)) as [nd|] eqn:En; [|discriminate]. destruct (holder nd); [discriminate|].
+    inversion E; subst. eapply (NL_same (set_node st (mnode m) _)); [|reflexivity|reflexivity|reflexivity].
+    eapply NL_node; [exact N|exact En|reflexivity].
   - inversion E; subst. nl_same N.
 Qed.
 
@@ -335,7 +342,7 @@ Proof.
   - destruct (nth_error (nodes st) (mnode m)) as [nd|] eqn:En; [|discriminate]. inversion E; subst.
     eapply (NL_same (set_node st (mnode m) _)); [|reflexivity|reflexivity|reflexivity].
     eapply NL_node; [exact N|exact En|reflexivity].
-  - otau_inv E. eapply (NL_same x); [eapply NL_take_blk; eassumption| | |]; reflexivity.
+  - inversion E; subst. nl_same N.
   - otau_inv E. eapply (NL_same x); [eapply NL_try_drop; eassumption| | |]; reflexivity.
   - inversion E; subst. nl_same N.
 Qed.
@@ -346,16 +353,16 @@ Proof.
   destruct (nth_error (subs st) s) as [c|] eqn:Ec; [|discriminate].
   destruct (spc c) eqn:Ep.
   - destruct (styps c); inversion E; subst; nl_sub N Ec.
-  - otau_inv E. eapply NL_sub; [eapply NL_take_blk; eassumption|rewrite (take_blk_subs _ _ _ E); exact Ec|intros ? X; exact X|intros ? ? X; exact X].
+  - destruct (styps c) as [tys|] eqn:Et; [|discriminate]. destruct (nth_error tys i) as [ty|]; [|discriminate].
+    destruct (with_node st ty) as [[st1 n]|] eqn:Ew; [|discriminate]. inversion E; subst.
+    eapply NL_sub; [eapply NL_with_node; eassumption|rewrite (with_node_subs _ _ _ _ Ew); exact Ec|intros ? X; exact X|intros ? ? X; exact X].
   - destruct (styps c) as [tys|] eqn:Et; [|discriminate].
-    destruct (nth_error tys i) as [ty|]; [|discriminate].
-    pose proof (NL_lookup st ty N) as N1. pose proof (lookup_inv st ty I) as I1. pose proof (lookup_subs st ty) as Hl.
-    destruct (lookup st ty) as [st1 n]. cbn in N1, I1, Hl.
-    destruct (nth_error (nodes st1) n) as [nd|] eqn:En; [|discriminate].
+    pose proof N as N1. pose proof I as I1.
+    destruct (nth_error (nodes st) n) as [nd|] eqn:En; [|discriminate].
     destruct (holder nd) eqn:Hh; [discriminate|]. inversion E; subst. clear E.
-    assert (Ec1 : nth_error (subs st1) s = Some c) by (rewrite Hl; exact Ec).
-    pose proof (iIdx st1 I1 s c Ec1) as Hi. unfold idx_ok in Hi. rewrite Ep in Hi.
-    pose proof (iLen st1 I1 s c Ec1) as Hlen.
+    assert (Ec1 : nth_error (subs st) s = Some c) by exact Ec.
+    pose proof (iIdx st I1 s c Ec1) as Hi. unfold idx_ok in Hi. rewrite Ep in Hi.
+    pose proof (iLen st I1 s c Ec1) as Hlen.
     intros n0 nd0 t Hn Ht. cbn [nodes set_sub set_subs set_node set_nodes set_blk] in Hn.
     set (c2 := match keep nd with | true => match nlast nd with | Some l0 => _ | None => _ end | false => _ end).
     assert (Hr2 : rpend c2 = rpend c ++ [true]) by (unfold c2; destruct (keep nd); [destruct (nlast nd)|]; reflexivity).
@@ -425,7 +432,7 @@ Proof.
     destruct (nth_error (nodes st) n) as [nd|] eqn:En; [|discriminate].
     destruct (holder nd); [discriminate|]. inversion E; subst.
     eapply NL_sub; [eapply NL_node; [exact N|exact En|reflexivity]|exact Ec|intros ? X; exact X|intros ? ? X; exact X].
-  - otau_inv E. eapply NL_sub; [eapply NL_take_blk; eassumption|rewrite (take_blk_subs _ _ _ E); exact Ec|intros ? X; exact X|intros ? ? X; exact X].
+  - inversion E; subst. nl_sub N Ec.
   - destruct (nth_error (snodes c) i) as [n|]; [|discriminate].
     destruct (nth_error (nodes st) n) as [nd|]; [|discriminate].
     otau_inv E. eapply NL_sub; [eapply NL_try_drop; eassumption|rewrite (try_drop_subs _ _ _ E); exact Ec|intros ? X; exact X|intros ? ? X; exact X].
